@@ -288,7 +288,14 @@ def reached_twice(v, base):
         "dotdot_both": '#[path = "../src/b.rs"]\nmod c;\n#[path = "sub/../b.rs"]\nmod d;\n',
         "inline_dotdot": 'mod b;\nmod i {\n    #[path = "../b.rs"]\n    mod c;\n}\n',
         "cfg_attr_twice": '#[cfg_attr(unix, path = "b.rs")]\n#[cfg_attr(windows, path = "b.rs")]\nmod b;\n',
+        # a cfg_attr that carries other attributes next to `path`: before it, after it, nested
+        "cfg_attr_multi_before": '#[cfg_attr(unix, allow(dead_code), path = "b.rs")]\nmod sys;\n',
+        "cfg_attr_multi_after": '#[cfg_attr(unix, path = "b.rs", allow(dead_code))]\nmod sys;\n',
+        "cfg_attr_multi_three": '#[cfg_attr(unix, allow(dead_code), deny(unused), path = "b.rs")]\nmod sys;\n',
+        "cfg_attr_nested": '#[cfg_attr(unix, cfg_attr(target_os = "linux", path = "b.rs"))]\nmod sys;\n',
+        "cfg_attr_multi_default": '#[cfg_attr(unix, allow(dead_code), path = "b.rs")]\nmod c;\n',
     }
+    extra_files = {"cfg_attr_multi_default": ["c.rs"]}
     n = 0
     for name, root in shapes.items():
         d = base / f"twice-{name}"
@@ -296,12 +303,14 @@ def reached_twice(v, base):
         (d / "src" / "i").mkdir()
         (d / "src" / "lib.rs").write_text(root + ugly)
         (d / "src" / "b.rs").write_text(ugly)
+        for x in extra_files.get(name, []):
+            (d / "src" / x).write_text(ugly)
         r = subprocess.run([rustfmt, "--edition", "2021", "--check", "-l", str(d / "src" / "lib.rs")],
                            cwd=d, env=core.run_env({"HOME": str(d)}), capture_output=True, text=True,
                            timeout=60)
         n += 1
         listed = [str(Path(ln.strip()).resolve()) for ln in r.stdout.split("\n") if ln.strip()]
-        want = sorted([str((d / "src" / "lib.rs").resolve()), str((d / "src" / "b.rs").resolve())])
+        want = sorted(str((d / "src" / x).resolve()) for x in ["lib.rs", "b.rs"] + extra_files.get(name, []))
         if sorted(listed) != want or r.returncode != 1:
             v.violation(f"twice:{name}",
                         f"a file reached twice ({name}): --check -l lists "
